@@ -88,6 +88,12 @@ def specRetained (alias : Bool) : Bool := !alias
 def explainAlias : String :=
   "round trip: a message did not stay what it was after it had been handed out (result shares memory with a later call)"
 
+def explainRepeat : String :=
+  "round trip: the same bytes decoded again (after the first result had been written to) do not give the same answer"
+
+def explainAltPair : String :=
+  "strictness: the verdict on the same bytes under a second (utg, wg) pair does not follow that pair"
+
 def explainOob : String :=
   "no-crash: short [32]byte array: the decoder's zero-fill wrote outside the array (decoded value differs from the same message with explicit zeros)"
 
